@@ -7,8 +7,8 @@ run() { $M "$@" 2>&1 | tee -a $L; }
 run "confirm SeqCst->Acquire"        strategy/hybrid.rs '54s/SeqCst/Acquire/' C01 C07
 run "confirm SeqCst->Relaxed"        strategy/hybrid.rs '54s/SeqCst/Relaxed/' C01 C07
 run "candidate SeqCst->Acquire(F3)"  strategy/hybrid.rs '90s/SeqCst/Acquire/' C01 C07
-run "cas-weak SeqCst->AcqRel"        strategy/hybrid.rs '238s/SeqCst, Relaxed/AcqRel, Relaxed/' C01 C07 C05
-run "cas-weak SeqCst->Release"       strategy/hybrid.rs '238s/SeqCst, Relaxed/Release, Relaxed/' C01 C07 C05
+run "cas-weak SeqCst->AcqRel"        strategy/hybrid.rs '259s/SeqCst, Relaxed/AcqRel, Relaxed/' C01 C07 C05
+run "cas-weak SeqCst->Release"       strategy/hybrid.rs '259s/SeqCst, Relaxed/Release, Relaxed/' C01 C07 C05
 run "fast slot swap ->AcqRel"        debt/fast.rs '58s/SeqCst/AcqRel/' C01 C07
 run "fast slot swap ->Release"       debt/fast.rs '58s/SeqCst/Release/' C01 C07
 run "active_addr store ->Release"    debt/helping.rs '206s/SeqCst/Release/' C01 C12 C07
@@ -31,13 +31,13 @@ run "active_writers dec ->Relaxed"   debt/list.rs '59s/Release/Relaxed/' C11 C01
 run "LIST_HEAD load ->Acquire"       debt/list.rs '104s/SeqCst/Acquire/' C01 C11
 run "LIST_HEAD load ->Relaxed"       debt/list.rs '104s/SeqCst/Relaxed/' C01 C11 C07
 run "cooldown swap ->Relaxed"        debt/list.rs '120s/Release/Relaxed/' C11 C01 C07
-run "check_cooldown load ->Relaxed"  debt/list.rs '132s/Acquire/Relaxed/' C11 C01
-run "reserve_writer ->Relaxed"       debt/list.rs '146s/Acquire/Relaxed/' C11 C01
-run "node claim CAS ->Relaxed"       debt/list.rs '162s/SeqCst, Relaxed/Relaxed, Relaxed/' C11 C01 C07
-run "LIST_HEAD push CAS ->Relaxed"   debt/list.rs '189s/SeqCst, Relaxed/Relaxed, Relaxed/' C11 C01 C07
-run "pay ->Release,Relaxed(F2)"      debt/mod.rs '87s/SeqCst, SeqCst/Release, Relaxed/' C01 C07
-run "pay ->AcqRel,Acquire"           debt/mod.rs '87s/SeqCst, SeqCst/AcqRel, Acquire/' C01 C07
-run "pay ->Relaxed,Relaxed"          debt/mod.rs '87s/SeqCst, SeqCst/Relaxed, Relaxed/' C01 C07
+run "check_cooldown writers load ->Relaxed"  debt/list.rs '150s/SeqCst/Relaxed/' C11 C01
+run "reserve_writer ->Relaxed"       debt/list.rs '161s/SeqCst/Relaxed/' C11 C01
+run "node claim CAS ->Relaxed"       debt/list.rs '177s/SeqCst, Relaxed/Relaxed, Relaxed/' C11 C01 C07
+run "LIST_HEAD push CAS ->Relaxed"   debt/list.rs '204s/SeqCst, Relaxed/Relaxed, Relaxed/' C11 C01 C07
+run "pay ->Release,Relaxed(F2)"      debt/mod.rs '103s/SeqCst, SeqCst/Release, Relaxed/' C01 C07
+run "pay ->AcqRel,Acquire"           debt/mod.rs '103s/SeqCst, SeqCst/AcqRel, Acquire/' C01 C07
+run "pay ->Relaxed,Relaxed"          debt/mod.rs '103s/SeqCst, SeqCst/Relaxed, Relaxed/' C01 C07
 run "storage swap ->AcqRel"          lib.rs '480s/Ordering::SeqCst/Ordering::AcqRel/' C01 C07 C03
 run "storage swap ->Release"         lib.rs '480s/Ordering::SeqCst/Ordering::Release/' C01 C07
 echo DONE >> $L
